@@ -67,7 +67,9 @@ pub fn run(rep: &mut Report, tier: &str, seed: u64) {
         }
     }
     let mut case_no = 0usize;
-    for ds in &decl_sets {
+    // every declaration set twice: with the probing stanza, and as a file WITHOUT stanzas (the pre-check of the globals
+    // runs whether or not anything will be executed)
+    for (ds, stanzaless) in decl_sets.iter().map(|d| (d, false)).chain(decl_sets.iter().map(|d| (d, true))) {
         // program
         let mut text = String::new();
         for (i, (q, dflt)) in ds.iter().enumerate() {
@@ -75,11 +77,16 @@ pub fn run(rep: &mut Report, tier: &str, seed: u64) {
             text.push_str(&format!("global G{}{}{}\n", i, qs, if *dflt { " = \"dflt\"" } else { "" }));
         }
         text.push_str("attribute sh = p => shv = p, shg = G0\n");
+        if !stanzaless {
         text.push_str("(module) @m {\n  node n\n  attr (n) top = @m\n");
         for i in 0..ds.len() {
             text.push_str(&format!("  attr (n) g{} = G{}\n", i, i));
         }
-        text.push_str("  if #true {\n    attr (n) in_if = G0\n    for x in [1] {\n      attr (n) in_for = G0\n      scan \"ab\" {\n        \"a\" {\n          attr (n) in_scan = G0, sh = 1\n        }\n      }\n    }\n  }\n}\n");
+        }
+        if !stanzaless { text.push_str("  if #true {\n    attr (n) in_if = G0\n    for x in [1] {\n      attr (n) in_for = G0\n      scan \"ab\" {\n        \"a\" {\n          attr (n) in_scan = G0, sh = 1\n        }\n      }\n    }\n  }\n}\n"); }
+        if stanzaless {
+            rep.count("stanza-less-file");
+        }
         let file = match load(&text) {
             Ok(Ok(f)) => f,
             other => {
@@ -107,7 +114,7 @@ pub fn run(rep: &mut Report, tier: &str, seed: u64) {
             code += step;
             for nested in [false, true] {
                 case_no += 1;
-                let key = format!("{:?} {:?} {}", ds, label, nested);
+                let key = format!("{:?} {:?} {} {}", ds, label, nested, stanzaless);
                 rep.case(&key, supplied.iter().any(|s| s.is_some()) || ds.iter().any(|d| d.1));
                 if rep.samples.len() < 3 && case_no % 97 == 0 {
                     rep.sample(json!({"tsg": text, "supplied": label, "nested": nested}));
@@ -156,7 +163,7 @@ pub fn run(rep: &mut Report, tier: &str, seed: u64) {
                         rep.fail("direct", &format!("C16 {}: expected {}, got {}", mode, expect, res.class), true, replay.clone());
                         continue;
                     }
-                    if expect == "ok" {
+                    if expect == "ok" && !stanzaless {
                         // effective values read back from node 0
                         let g = res.run.graph.as_ref().unwrap();
                         let attrs = g.as_list().unwrap()[1].as_list().unwrap()[0].as_list().unwrap().clone();
